@@ -205,6 +205,28 @@ Theorem C31_polyhedron_refuted :
 Proof. exact pih_refuted. Qed.
 Print Assumptions C31_polyhedron_refuted.
 
+(* sort_point_pairs, completeness in circular mode: if the input IS a single cycle — there
+   is a traversal (perm = order of the pairs, os = which pairs are flipped, es = the oriented
+   pairs) starting with the first pair as given, consecutive pairs chaining, the chain
+   closing, all vertex labels distinct and no pair degenerate — then, in whatever order and
+   orientation the pairs are stored, the call succeeds and returns exactly that traversal.
+   (PARTIAL only in that the non-circular mode, whose start is chosen through np.bincount,
+   is covered by the tie and the oracle, not by a completeness theorem.) *)
+Theorem C31_chain_complete_cycle :
+  forall lines chk perm os es,
+    let n := length lines in
+    (Permutation perm (seq 0 n) -> length es = n ->
+    (forall k, k < n -> nth k es dl = orient (nth (nth k perm 0) lines dl) (nth k os false)) ->
+    (forall k, S k < n -> snd (nth k es dl) = fst (nth (S k) es dl)) ->
+    fst (nth 0 es dl) = snd (nth (n - 1) es dl) ->
+    NoDup (map fst es) ->
+    (forall l, In l lines -> fst l <> snd l) ->
+    nth 0 perm 0 = 0 /\ nth 0 os false = false ->
+    1 <= n ->
+    sort_point_pairs lines chk true = SOk es perm)%nat.
+Proof. exact sort_point_pairs_complete_cycle. Qed.
+Print Assumptions C31_chain_complete_cycle.
+
 (* sort_point_pairs, the chaining step (PARTIAL: only the inner-loop link is proved —
    the pair appended at each step is a not-yet-used input pair, possibly flipped, whose
    first entry equals the open end `prev`, and the new open end is its second entry; and
@@ -313,3 +335,27 @@ Example C31_nonvacuous_spiral :
   pip_ref poly_spiral (7 # 2, 9 # 2) = Some true /\ pip_ref poly_spiral (6, 4) = Some false /\
   pip_ref poly_spiral (4, 3) = None.
 Proof. repeat split; vm_compute; reflexivity. Qed.
+
+Example C31_nonvacuous_cycle :
+  let lines := [(1, 2); (5, 1); (7, 2); (7, 5)]%Z in
+  let perm := [0; 2; 3; 1]%nat in let os := [false; true; false; false] in
+  let es := [(1, 2); (2, 7); (7, 5); (5, 1)]%Z in
+  Permutation perm (seq 0 4) /\
+  (forall k, (k < 4)%nat -> nth k es dl = orient (nth (nth k perm 0%nat) lines dl) (nth k os false)) /\
+  (forall k, (S k < 4)%nat -> snd (nth k es dl) = fst (nth (S k) es dl)) /\
+  fst (nth 0 es dl) = snd (nth 3 es dl) /\ NoDup (map fst es) /\
+  (forall l, In l lines -> fst l <> snd l) /\
+  sort_point_pairs lines true true = SOk es perm.
+Proof.
+  cbv zeta. split; [|split; [|split; [|split; [|split; [|split]]]]].
+  - apply NoDup_Permutation_bis.
+    + repeat constructor; cbn; intuition lia.
+    + cbn. lia.
+    + intros x Hx. cbn in Hx. cbn. intuition lia.
+  - intros k Hk. destruct k as [|[|[|[|k]]]]; try lia; reflexivity.
+  - intros k Hk. destruct k as [|[|[|k]]]; try lia; reflexivity.
+  - reflexivity.
+  - repeat constructor; cbn; intuition congruence.
+  - intros l Hl. cbn in Hl. destruct Hl as [<- | [<- | [<- | [<- | []]]]]; cbn; congruence.
+  - vm_compute. reflexivity.
+Qed.
